@@ -85,6 +85,7 @@ type cfg struct {
 	rew    string // text the real code put in its place
 	label  string
 	column string
+	noRows bool // configuration only (interval rejected by DuckDB / width outside the int64 µs range)
 }
 
 func (g *cfg) origX(t int64) int64 {
@@ -104,6 +105,9 @@ func (g *cfg) classify(t int64) string {
 	}
 	if g.isDt && g.unit == "week" {
 		return fn + ":week-starts-thursday-in-epoch-arithmetic"
+	}
+	if !g.isDt && g.s*usPerSec != g.W {
+		return fn + ":amount-parsed-differently" // the rewrite's width is not DuckDB's reading of the interval literal
 	}
 	if !g.isDt && g.O%usPerSec != 0 {
 		return fn + ":origin-subsecond-truncated"
@@ -333,7 +337,7 @@ func validateFunctions(n int) {
 		c.Op("fn origin "+hx(o), out)
 	}
 	for _, u := range []string{"second", "minute", "hour", "day", "week", "month", "year", "hours", "Hour", ""} {
-		for _, a := range []string{"0", "1", "5", "90", "1000000", "007", "9223372036854775807", "9223372036854775808", "99999999999999999999"} {
+		for _, a := range []string{"0", "1", "5", "90", "1000000", "007", "010", "0015", "08", "09", "030", "00", "9223372036854775807", "9223372036854775808", "99999999999999999999"} {
 			if u == "" {
 				continue
 			}
@@ -463,6 +467,11 @@ func runTimeCfg(g *cfg, nTs int) {
 		return
 	}
 	c.Tag(fn + ":rewritten")
+	if g.noRows {
+		c.Tag(fn + ":rewritten-but-interval-not-evaluable")
+		c.Case(opLine, true)
+		return
+	}
 	ts := edgeTimestamps(g, nTs)
 	loadTs(ts)
 	origExpr, rewExpr := g.orig, g.rew
@@ -562,14 +571,27 @@ func tbConfig(amount string, unitw string, origin string, hasOrigin bool, style 
 	if hasOrigin {
 		oh = hx(origin)
 	}
-	g.label = fmt.Sprintf("tbcfg %s %s %s %s", amount, unitw, col, oh)
+	amt := amount
+	if amount == "" || strings.ContainsAny(amount, " \t") {
+		amt = "h:" + hx(amount)
+	}
+	g.label = fmt.Sprintf("tbcfg %s %s %s %s", amt, unitw, col, oh)
 	if g.kept {
 		return g
 	}
-	n, _ := strconv.ParseInt(amount, 10, 64)
-	lw := strings.TrimSuffix(strings.ToLower(unitw), "s")
-	g.s = n * unitSecs[lw]
-	g.W = g.s * usPerSec
+	// the width the REAL rewrite uses (same unit normalisation as rewriteTimeBucket) …
+	g.s = int64(api.VerifIntervalToSeconds(strings.TrimRight(amount, " \t"), strings.ToLower(strings.TrimSuffix(unitw, "s")))) // `(\d+)\s*`: trailing blanks are not captured
+	// … and DuckDB's own reading of the interval literal
+	var w sql.NullInt64
+	if err := db.QueryRow(fmt.Sprintf("SELECT epoch_us(TIMESTAMP '1970-01-01 00:00:00' + INTERVAL '%s %s')", amount, unitw)).Scan(&w); err != nil || !w.Valid || w.Int64 <= 0 {
+		g.noRows = true
+		return g
+	}
+	g.W = w.Int64
+	if g.s <= 0 || g.s > 9e12 {
+		g.noRows = true
+		return g
+	}
 	g.O = defaultOriginSec * usPerSec
 	if hasOrigin {
 		t, err := api.VerifParseTimeBucketOrigin(origin)
@@ -1159,6 +1181,30 @@ func main() {
 			runTimeCfg(tbConfig(a, u, o, true, r.Intn(8), "ts"), 60*scale)
 		}
 	}
+	// amount spellings: leading zeros (Go must read them in base 10 like DuckDB), signs, blanks, decimals,
+	// exponents, hex-looking, underscores, very large — on every seed, with and without origin
+	spellings := []string{"010", "08", "09", "0015", "007", "030", "012", "0005", "00010", "0100", "000", "+5", " 5", "5.0", "1e1", "0x10", "1_0", "5 ", "-5",
+		"2147483647", "2147483648", "3000000000", "4294967296", "9223372036854775807", "9223372036854775808"}
+	spellInfo := map[string]string{}
+	for _, a := range spellings {
+		units := []string{"seconds", "minute", "hours"}
+		if len(a) >= 10 {
+			units = []string{"seconds"}
+		}
+		for _, u := range units {
+			var w sql.NullInt64
+			if err := db.QueryRow(fmt.Sprintf("SELECT epoch_us(TIMESTAMP '1970-01-01 00:00:00' + INTERVAL '%s %s')", a, u)).Scan(&w); err != nil {
+				spellInfo[a+" "+u] = "duckdb-rejects"
+			} else {
+				spellInfo[a+" "+u] = fmt.Sprintf("duckdb-width-us=%d", w.Int64)
+			}
+			g2 := tbConfig(a, u, "", false, 1, "ts")
+			spellInfo[a+" "+u] += map[bool]string{true: " arc-keeps", false: fmt.Sprintf(" arc-seconds=%d", g2.s)}[g2.kept]
+			runTimeCfg(g2, 60)
+			runTimeCfg(tbConfig(a, u, "2024-01-01", true, 3, "ts"), 60)
+		}
+	}
+	c.Extra["amount_spellings"] = spellInfo
 	// spellings the regex accepts / rejects
 	for _, u := range []string{"HOURS", "Hours", "hourS", "HOUR", "Minute"} {
 		runTimeCfg(tbConfig("3", u, "", false, 1, "ts"), 40)
